@@ -77,6 +77,7 @@ P["C06"] = dict(
     obligations=ob("JSight.Props.C06",
         ("Props.C06.C06_events_of_tree", "events of any valid text = events denoted by its tree (nesting, token spans, containers bracket to bracket)"),
         ("Props.C06.C06_spans", "every span inside the input, begin <= end"),
+        ("Props.C06.C06_nested", "events properly nested; closer pairs with the innermost opener and carries its offset"),
         ("Props.C06.C06_string_token", "RFC strings are scalar tokens"),
         ("Props.C06.C06_number_token", "RFC numbers are scalar tokens"),
         ("Props.C06.C06_key_token", "RFC strings are key tokens")) + ob("JSight.Props.C13",
